@@ -136,19 +136,30 @@ def other_commands_points():
         inp, outp = os.path.join(root, "in.py"), os.path.join(root, "out.py")
         open(inp, "w").write("a: int = 5\n")
         open(outp, "w").write("def f(g: str = 'x'):\n    pass\n")
-        for miss in ("input", "output"):
-            argv = ["sync_properties", "--input-filename", inp if miss != "input" else os.path.join(root, "nope.py"),
-                    "--input-param", "a", "--output-filename", outp if miss != "output" else os.path.join(root, "nope2.py"),
-                    "--output-param", "f.g"]
+        # the decision table of the sync_properties sub-command, cell by cell against the Coq model
+        # (Cli.decide_sync_properties counts_equal input_exists output_exists): Reject = usage error, nothing touched;
+        # Run = carried out (rc 0)
+        cells = [(ce, ie, oe) for ce in (True, False) for ie in (True, False) for oe in (True, False)]
+        want = [loads(o) for o in run_model([dumps([Sym("decide_sync_properties"), ce, ie, oe]) for ce, ie, oe in cells])]
+        for (ce, ie, oe), w in zip(cells, want):
+            argv = ["sync_properties", "--input-filename", inp if ie else os.path.join(root, "nope.py"),
+                    "--input-param", "a", "--output-filename", outp if oe else os.path.join(root, "nope2.py"),
+                    "--output-param", "f.g"] + ([] if ce else ["--output-param", "f.h"])
             before = L.snapshot(root)
             r = L.run_cli(argv)
             after = L.snapshot(root)
-            ok = r["rc"] == 2 and "usage:" in r["stderr"] and before == after
-            pts.append((ok, "sync_properties with missing %s file: rc=%s, fs %s" % (miss, r["rc"], "untouched" if before == after else "TOUCHED"),
-                        {"command": "sync_properties", "missing": miss}))
-        argv = ["sync_properties", "--input-filename", inp, "--input-param", "a", "--output-filename", outp, "--output-param", "f.g"]
-        r = L.run_cli(argv)
-        pts.append((r["rc"] == 0, "sync_properties on existing files: rc=%s %s" % (r["rc"], r["stderr"][-200:]), {"command": "sync_properties", "missing": None}))
+            facts = {"command": "sync_properties", "counts_equal": ce, "input_exists": ie, "output_exists": oe,
+                     "missing": None if ie and oe else ("input" if not ie else "output")}
+            w = str(w if not isinstance(w, list) else w[0])
+            if w == "reject":
+                ok = r["rc"] == 2 and "usage:" in r["stderr"] and before == after
+                pts.append((ok, "sync_properties (params pair up: %s, input exists: %s, output exists: %s) must be refused with a usage error: "
+                                "rc=%s, fs %s" % (ce, ie, oe, r["rc"], "untouched" if before == after else "TOUCHED"), facts))
+            elif w == "run":
+                pts.append((r["rc"] == 0, "sync_properties on existing files with paired parameters: rc=%s %s" % (r["rc"], r["stderr"][-200:]), facts))
+                open(outp, "w").write("def f(g: str = 'x'):\n    pass\n")
+            else:
+                pts.append((False, "the model's decision for sync_properties is %r" % (w,), facts))
         existing = os.path.join(root, "gen_out.py")
         open(existing, "w").write("KEEP = 1\n")
         before = L.snapshot(root)
